@@ -403,7 +403,7 @@ def rule_e(ctx, ix):
                                     % (fname, norm(mr.direct[fname][v][0]) if direct else ''), shape=v, where='%s:%d' % (mod.relpath, f.lineno))
 
 
-TRANSFORM_SINKS = ('pixel2world_single_axis', 'world2pixel_single_axis', 'pixel_to_world_values', 'world_to_pixel_values',
+TRANSFORM_SINKS = ('pixel2world_single_axis', 'world2pixel_single_axis', 'pixel_to_world_values', 'world_to_pixel_values', '_world_at_pixel_positions',
                    'pixel_to_world', 'world_to_pixel')
 
 
